@@ -388,6 +388,14 @@ func C22(e *simkern.Env) {
 						rq.rejectWithCtx = tp.Bool(1, 3)
 					}
 					hdr := map[string]string{"X-Sim-Req": ids}
+					if tp.Bool(2, 3) {
+						// callers present one of a few bearer credentials; what the
+						// authority answers is still this request's own matter (it
+						// looks at more than the credential: the proof, the route,
+						// its own health at that moment)
+						hdr["Authorization"] = fmt.Sprintf("Bearer cred-%d", tp.Draw(2))
+						sim.Probe("request-with-bearer-credential")
+					}
 					if proofMode != 0 {
 						if tp.Bool(1, 5) {
 							if proofMode == 2 {
@@ -589,7 +597,7 @@ func init() {
 	Registry["C22"] = &Info{
 		Run:   C22,
 		Level: "exploration",
-		Rule:  "each run draws a server configuration (prefix, upload-URL provider, external locations — a third of the exchange continuations then carry their input as a pointer to a caller-chosen URL —, token introspection, sticky sessions, OAuth metadata, PKCE browser login, proof gate off/allow/require, CORS, 1-2 instances sharing a key with call caches {default,0,1}, batch limit) and 1-3 concurrent client tasks that walk every route kind (unary, __describe__, stream init, continuation and cancel with previously minted valid tokens, __upload_url__/init, introspection, preflight, health, OAuth metadata document, landing/describe/404 pages, two operator routes, session DELETE, login routes); for every request the tape decides whether the authority accepts (anonymous / alice / the introspector) or rejects, and how (error tree: AuthFailure with each reason, RpcError of seven types, AuthUnavailableError, foreign error, wrapped 0-2 deep; or a missing/forged proof under a require-mode gate); the authenticator, handlers, stream states, rehydrate callback, upload provider, token resolver and operator routes are harness code that yields, so requests interleave; each invocation is attributed to its request (script nonce, per-stream exclusive ownership, request marker, or the task whose ServeHTTP call is on the stack). distinct = distinct schedule/outcome fingerprint; non-trivial = at least one request was sent under a rejecting authority",
+		Rule:  "each run draws a server configuration (prefix, upload-URL provider, external locations — a third of the exchange continuations then carry their input as a pointer to a caller-chosen URL —, token introspection, sticky sessions, OAuth metadata, PKCE browser login, proof gate off/allow/require, CORS, 1-2 instances sharing a key with call caches {default,0,1}, batch limit) and 1-3 concurrent client tasks that walk every route kind (unary, __describe__, stream init, continuation and cancel with previously minted valid tokens, __upload_url__/init, introspection, preflight, health, OAuth metadata document, landing/describe/404 pages, two operator routes, session DELETE, login routes); two thirds of the requests carry one of two bearer credentials (so the same credential is accepted for one request and refused, or unavailable, for another — concurrently and later); for every request the tape decides whether the authority accepts (anonymous / alice / the introspector) or rejects, and how (error tree: AuthFailure with each reason, RpcError of seven types, AuthUnavailableError, foreign error, wrapped 0-2 deep; or a missing/forged proof under a require-mode gate); the authenticator, handlers, stream states, rehydrate callback, upload provider, token resolver and operator routes are harness code that yields, so requests interleave; each invocation is attributed to its request (script nonce, per-stream exclusive ownership, request marker, or the task whose ServeHTTP call is on the stack). distinct = distinct schedule/outcome fingerprint; non-trivial = at least one request was sent under a rejecting authority",
 		Real:  []string{"vgirpc.HttpServer (ServeHTTP, route table, authenticate, unary/stream/upload-url/introspection/sticky-delete/health/pages/OAuth handlers)", "vgirpc.ProofAuthenticate, ChainAuthenticate+CookieAuthenticate (PKCE)", "vgirpc.Server dispatch, token seal/open, call-state cache", "sticky-session reaper on the simulated clock"},
 		Stub:  []string{"authenticator (outcome from the tape)", "UploadURLProvider, TokenResolver, RehydrateFunc, operator routes (counting, yielding)", "scripted handlers and stream states", "HTTP transport (direct ServeHTTP call)", "load balancer (tape)"},
 		Quick: 1200, Thorough: 80000,
